@@ -805,6 +805,7 @@ def apply(model: RefDir, act, info=None):
     elif a == 'table_conv':
         t = model.types[act['type']]
         t.setdefault('conv_pairs', [])
+        t['n_convs'] = t.get('n_convs', 0) + 1
         for u1, u2, _f, _o in act['table']:
             t['conv_pairs'].append((u1, u2))
     elif a == 'currency_reg':
